@@ -13,6 +13,7 @@ import (
 
 type PythonIdentListener struct {
 	parser.BasePythonParserListener
+	enclosing []*core_domain.CodeDataStruct // classes around the current one
 }
 
 var currentCodeFile *core_domain.CodeContainer
@@ -85,13 +86,16 @@ func (s *PythonIdentListener) EnterClassdef(ctx *parser.ClassdefContext) {
 		dataStruct.Annotations = decorators
 	}
 
+	s.enclosing = append(s.enclosing, currentDataStruct)
 	currentDataStruct = dataStruct
 }
 
 func (s *PythonIdentListener) ExitClassdef(ctx *parser.ClassdefContext) {
 	hasEnterMember = false
 	currentCodeFile.DataStructures = append(currentCodeFile.DataStructures, *currentDataStruct)
-	currentDataStruct = nil
+	// back to the enclosing class, if any
+	currentDataStruct = s.enclosing[len(s.enclosing)-1]
+	s.enclosing = s.enclosing[:len(s.enclosing)-1]
 }
 
 func (s *PythonIdentListener) EnterFuncdef(ctx *parser.FuncdefContext) {
